@@ -28,6 +28,9 @@ for m in muts:
         props = [p.strip() for p in pm.group(1).split(",")] if pm else []
     if props_filter and not set(props) & set(props_filter):
         continue
+    if m.endswith("patch.diff") and str(meta.get("status", "")).startswith("neutralised"):
+        print(f"{name:45s} skipped: {meta['status']} (see meta.json)")
+        continue
     wt = tempfile.mkdtemp(prefix="vf-mut-")
     os.rmdir(wt)
     subprocess.check_call(["git", "-C", "/repo", "worktree", "add", "-q", "--detach", wt, "HEAD"])
